@@ -528,6 +528,7 @@ def consumption_probes(variant_filters):
             args = "('real')"
         out.append((name, "{{ (g|%s%s|first) is defined }}|{{ g|list }}" % (name, args)))
         out.append((name, "{%% for x in g|%s%s %%}{{ x }}{%% break %%}{%% endfor %%}|{{ g|list }}" % (name, args)))
+        out.append((name, "{%% set r = g|%s%s %%}{{ g|list }}" % (name, args)))          # the result is never iterated
     return out
 
 
